@@ -77,11 +77,25 @@ class World:
         return AwareASTNode.get_any(i) is None
 
     def attachable(self, n: Any) -> bool:
-        """a detached node whose whole subtree is detached, consists of distinct objects and free ids"""
-        st = subtree(n)
-        if len({id(x) for x in st}) != len(st) or len({x.id for x in st}) != len(st):
+        """a detached node whose subtree consists of distinct objects, each either detached with a free,
+        unrepeated id or an attached *root* (which is adopted together with everything below it)"""
+        if not n.detached:
             return False
-        return all(x.detached and self.free_id(x.id) for x in st)
+        seen_obj: set[int] = set()
+        ids: set[str] = set()
+
+        def rec(x: Any) -> bool:
+            if id(x) in seen_obj:
+                return False
+            seen_obj.add(id(x))
+            if not x.detached:
+                return x.parent is None  # an attached root below a detached node (re-attached on its own earlier)
+            if x.id in ids or not self.free_id(x.id):
+                return False
+            ids.add(x.id)
+            return all(rec(c) for c, _, _ in kids(x))
+
+        return rec(n)
 
     def eligible_children(self, exclude: set[int], want: tuple[str, ...] | None = None) -> list[Any]:
         out = []
